@@ -7,6 +7,7 @@
 package c01
 
 import (
+	"math"
 	"context"
 	"fmt"
 	"os"
@@ -46,6 +47,10 @@ var (
 	lvAudit  = log.RegisterLevel(1200, "AUDIT")
 	// an alias: another name for WARN's code (bounds and routing go by the code)
 	lvWarning = log.RegisterLevel(400, "WARNING")
+	// the ends of the code type: lower bounds more than 2^31 apart (ordering by subtraction would wrap)
+	lvFloor = log.RegisterLevel(math.MinInt32, "FLOOR")
+	lvDeep  = log.RegisterLevel(-2000000000, "DEEP")
+	lvCeil  = log.RegisterLevel(math.MaxInt32, "CEIL")
 )
 
 var allLevels = []lvl{
@@ -53,6 +58,7 @@ var allLevels = []lvl{
 	{"WARN", 400, log.WarnLevel}, {"ERROR", 500, log.ErrorLevel}, {"PANIC", 600, log.PanicLevel}, {"FATAL", 700, log.FatalLevel},
 	{"MAX", 999, log.MaxLevel}, {"LOWEST", 1, lvLowest}, {"NOTICE", 350, lvNotice}, {"ALERT", 450, lvAlert}, {"TOP", 998, lvTop},
 	{"NEG", -1, lvNeg}, {"OVER", 1000, lvOver}, {"SEC", 1100, lvSec}, {"AUDIT", 1200, lvAudit}, {"WARNING", 400, lvWarning},
+	{"FLOOR", math.MinInt32, lvFloor}, {"DEEP", -2000000000, lvDeep}, {"CEIL", math.MaxInt32, lvCeil},
 }
 
 var builtin = allLevels[:9]
@@ -142,16 +148,16 @@ func effective(refs []rng) [][2]int {
 		lo, hi := r.bounds()
 		if r.Empty || !r.HasMax {
 			// ends where the next-higher lower bound among the same logger's references begins
-			next := -1
+			next, found := 0, false
 			for j, o := range refs {
 				if j == i {
 					continue
 				}
-				if m := o.minCode(); m > lo && (next == -1 || m < next) {
-					next = m
+				if m := o.minCode(); m > lo && (!found || m < next) {
+					next, found = m, true
 				}
 			}
-			if next != -1 {
+			if found {
 				hi = next
 			}
 		}
@@ -169,8 +175,8 @@ var levelPool = rapid.SampledFrom([]string{"NONE", "TRACE", "DEBUG", "INFO", "WA
 // internal [min,WARN)/[WARN,max) split is not pinned down by the property. Everywhere else an
 // explicit upper bound may be a user-registered level above MAX (OVER=1000, SEC=1100, AUDIT=1200):
 // the range is half-open over codes like any other. Events at MAX and above MAX are always logged.
-var rareLevel = rapid.SampledFrom([]string{"NEG", "NEG"})
-var overLevel = rapid.SampledFrom([]string{"AUDIT", "OVER", "SEC"})
+var rareLevel = rapid.SampledFrom([]string{"NEG", "NEG", "FLOOR", "DEEP"})
+var overLevel = rapid.SampledFrom([]string{"AUDIT", "OVER", "SEC", "CEIL"})
 
 // liftMax replaces, now and then, an explicit upper bound by a user-registered level above MAX.
 func liftMax(t *rapid.T, label string, r rng) rng {
@@ -181,7 +187,7 @@ func liftMax(t *rapid.T, label string, r rng) rng {
 }
 
 func genLevelName(t *rapid.T, label string) string {
-	if rapid.IntRange(0, 24).Draw(t, label+"rare") == 0 {
+	if rapid.IntRange(0, 11).Draw(t, label+"rare") == 0 {
 		return rareLevel.Draw(t, label+"r")
 	}
 	return levelPool.Draw(t, label)
@@ -862,8 +868,8 @@ func TestC01_Generated(t *testing.T) {
 			events = append(events, ev{ID: id, Entry: ep, Level: levelByName(entryLevels[ep]), Tag: "a"})
 			id++
 		}
-		nrec := rapid.IntRange(6, 10).Draw(t, "nrecord")
-		must := []string{"NONE", "MAX", "TOP", "OVER", "NEG", "SEC"}
+		nrec := rapid.IntRange(8, 12).Draw(t, "nrecord")
+		must := []string{"NONE", "MAX", "TOP", "OVER", "NEG", "SEC", "FLOOR", "CEIL"}
 		for i := 0; i < nrec; i++ {
 			var l lvl
 			if i < len(must) {
